@@ -106,6 +106,9 @@ func vfRawCredHeaders(kind, expiredCookie, loggedOutCookie string) (lines string
 		return "Cookie: " + sessionCookieName + "=" + expiredCookie + "\r\n"
 	case "logged_out_session":
 		return "Cookie: " + sessionCookieName + "=" + loggedOutCookie + "\r\n"
+	case "basic_account_without_usable_hash":
+		vfWeakCredSeq++
+		return basic(vfWeakUsers[vfWeakCredSeq%len(vfWeakUsers)], []string{"", "x", "letmein", vfAdminPass}[(vfWeakCredSeq/len(vfWeakUsers))%4])
 	case "wrong_basic":
 		return basic(vfAdminUser, "wrong password")
 	case "unknown_user_basic":
